@@ -497,6 +497,14 @@ def install():
     _install_crypto(mods, _saved)
     core.patch_threads()
     logging.disable(logging.CRITICAL)
+    _old_hook = sys.unraisablehook
+
+    def hook(unraisable):
+        if isinstance(unraisable.exc_value, SimAbort):
+            return  # a finaliser interrupted by teardown
+        _old_hook(unraisable)
+
+    sys.unraisablehook = hook
     _installed = True
 
 
